@@ -25,8 +25,8 @@ def generate(rng, tier):
     repl = W.register(W.f_resp(lambda: __import__("poorwsgi.response", fromlist=["x"]).Response(b"replaced", status_code=202)))
     resp = W.pool()["resps"][2]
     before_b = ["ret~N", "ab~403~0~0", "abr~" + resp.tok[1:], "exc~2", "ret~S78"]
-    after_b = ["same", "ab~503~0~0", "abr~" + resp.tok[1:], "exc~2", W.beh_ret(repl), "ret~N"]
     W.register(W.f_str("x"))
+    after_b = ["same", "ab~503~0~0", "abr~" + resp.tok[1:], "exc~2", W.beh_ret(repl), "ret~N", "ret~S78", "ret~X"]
     end_b = ["ret~S78", "ab~404~0~0", "abr~" + resp.tok[1:], "exc~0", "ret~N", "ret~X"]
     cases = []
     maxh = 3 if tier == "thorough" else 2
@@ -79,6 +79,7 @@ def oracle(case):
     bad = None
     bev = [t for t in trace if t.startswith("b")]
     aev = [t for t in trace if t.startswith("a")]
+    raw = [t for t in trace if t.startswith("raw")]
     if c["ctor"] != "ok":
         if bev or "e" in trace:
             bad = "hooks/endpoint ran although request construction failed"
@@ -133,6 +134,8 @@ def oracle(case):
                     a = c["prog"]["a%d" % stop]
                     if (a.startswith("exc~") or a == "ret~X") and status != 500:
                         bad = "after hook %d failed but the client received %d instead of an error response" % (stop, status)
+    if not bad and raw:
+        bad = "after hook %s was handed a raw return value instead of a response object" % raw[0][3:]
     if bad:
         return [Violation("c03:" + bad.split()[0], case, bad)]
     return []
